@@ -125,8 +125,10 @@ def record(src):
         for inv in (False, True):
             configs.append((mode, inv))
     for mode, inv in configs:
-        startkind = r.choice(['default', 'one', 'two', 'default'])
-        if startkind == 'default' or not labels:
+        startkind = r.choice(['default', 'one', 'two', 'default', 'default', 'empty'])
+        if startkind == 'empty':
+            start_arg, start = [], []        # the empty start set: nothing is reached, everything is unvisited
+        elif startkind == 'default' or not labels:
             start_arg, start = None, (list(c.inputs) if inv else list(c.outputs))
         elif startkind == 'one':
             start = [r.choice(labels)]
